@@ -47,11 +47,16 @@ class RecBase(EqByMode):
         if hook is not None:
             hook(self, kind, args)
 
+    def _mapped(self, event, method):
+        # every class has all four methods; the decorator decides which one an event is mapped to - running
+        # on_add on a class that maps the event to `added` is running the wrong method
+        return getattr(type(self), '__events__', {}).get(event, method) == method
+
     def on_add(self, *a):
-        self._rec('on_add', a)
+        self._rec('on_add' if self._mapped('on_add', 'on_add') else 'unmapped_method_on_add', a)
 
     def on_remove(self, *a):
-        self._rec('on_remove', a)
+        self._rec('on_remove' if self._mapped('on_remove', 'on_remove') else 'unmapped_method_on_remove', a)
 
     def added(self, *a):
         self._rec('on_add', a)
